@@ -253,7 +253,8 @@ check("C02",
            "alias) must return exactly the argument given (identity for nodes, value for enumerators/qualifiers/positions/strings), "
            "unsupplied optional parts read as absent or refuse with logic_error, settable links read back after being set; every "
            "Scope::make_* called three times with one name and type: each redeclaration reports what ITS call was given, per-declaration "
-           "parts stay per declaration. distinct_nontrivial = distinct row variants built.",
+           "parts stay per declaration; all 343 triples of seven equal-length words handed to get_string / get_identifier / make_literal through ONE buffer refilled in place: "
+           "each node reports the characters the buffer held at its call. distinct_nontrivial = distinct row variants built.",
       text="Complete enumeration of the finite space row x operand choice x optional parts on the real factories; "
            "expectations are written from the interface documentation.",
       note="Every row gives pairwise-distinct operands to different positions. make_annotation and make_token are declared "
